@@ -186,8 +186,11 @@ def attrsLoad (g : G) (attrs : Nat) (name : String) : Option Val := dictGet (g.h
 def attrsStore (g : G) (attrs : Nat) (name : String) (v : Val) : G :=
   { g with heap := g.heap.setDict attrs (dictSet (g.heap.dictOf attrs) name v) }
 
+/-- numOpCountAdd: the counter saturates at MaxInt64 (it used to wrap) -/
+def satAdd (a n : Int) : Int := if n > 0 && a > DS.Roll.maxInt64 - n then DS.Roll.maxInt64 else a + n
+
 def addOps (g : G) (c : Nat) (n : Int) : G :=
-  { g with ctxs := g.ctxs.modify c (fun x => { x with numOp := x.numOp + n }) }
+  { g with ctxs := g.ctxs.modify c (fun x => { x with numOp := satAdd x.numOp n }) }
 
 def getOps (g : G) (c : Nat) : Int := (g.ctxs[c]!).numOp
 def setOps (g : G) (c : Nat) (n : Int) : G := { g with ctxs := g.ctxs.modify c (fun x => { x with numOp := n }) }
